@@ -17,7 +17,8 @@
 (***************************************************************************)
 EXTENDS Engine
 
-VARIABLES sys     \* [m : run -> Engine state, ready : Seq(<<run, task>>), started : set of runs]
+VARIABLES sys     \* [m : run -> Engine state, ready : Seq(<<run, task>>), started : set of runs,
+                  \*  tord : Seq(<<run, due, task>>) the shared timer heap in creation order]
 vars2 == <<sys, act, st>>
 
 NRuns == Len(G.runs)
@@ -27,7 +28,14 @@ Init2 ==
     /\ st = 0
     /\ act = <<"init">>
     /\ sys = [m |-> [r \in 1..NRuns |-> [InitSt(r) EXCEPT !.ready = <<>>]],
-              ready |-> << <<1, 1>> >>, started |-> {1}]
+              ready |-> << <<1, 1>> >>, started |-> {1}, tord |-> <<>>]
+
+(* the shared heap after run r's manager went from state `old` to `new`: its cancelled timers leave, its new ones
+   are appended in the order the manager created them *)
+SyncTimers(old, new, r, tord) ==
+    LET kept == SelectSeq(tord, LAMBDA x : x[1] # r \/ \E i \in 1..Len(new.timers) : new.timers[i] = <<x[2], x[3]>>)
+        added == SelectSeq(new.timers, LAMBDA y : ~\E i \in 1..Len(old.timers) : old.timers[i] = y)
+    IN  kept \o [i \in 1..Len(added) |-> <<r, added[i][1], added[i][2]>>]
 
 Pending(r) == sys.m[r].outcome = <<"pending">>
 Running2 == \E r \in 1..NRuns : r \notin sys.started \/ Pending(r)
@@ -38,7 +46,8 @@ Step2 ==
     /\ LET r == sys.ready[1][1]
            t == sys.ready[1][2]
            S1 == Resume(sys.m[r], t)
-       IN  /\ sys' = [sys EXCEPT !.m[r] = [S1 EXCEPT !.ready = <<>>], !.ready = Tail(@) \o Tag(r, S1.ready)]
+       IN  /\ sys' = [sys EXCEPT !.m[r] = [S1 EXCEPT !.ready = <<>>], !.ready = Tail(@) \o Tag(r, S1.ready),
+                                 !.tord = SyncTimers(sys.m[r], S1, r, @)]
            /\ act' = <<"step", r, IF t < 0 THEN "timer" ELSE sys.m[r].tasks[t].name>>
     /\ UNCHANGED st
 
@@ -51,6 +60,22 @@ Fire2(r, t) ==
                                   ELSE S.tasks[t].name>>
     /\ UNCHANGED st
 
+(* the loop fires its earliest timer (ties: creation order) and the clock moves for every run *)
+Tick2 ==
+    /\ Running2 /\ Len(sys.tord) > 0
+    /\ LET i == CHOOSE k \in 1..Len(sys.tord) :
+                    \A j \in 1..Len(sys.tord) : sys.tord[k][2] < sys.tord[j][2] \/ (sys.tord[k][2] = sys.tord[j][2] /\ k <= j)
+           e == sys.tord[i]
+           r == e[1]
+           now2 == Max2(sys.m[r].now, e[2])
+       IN  /\ sys' = [sys EXCEPT !.m = [q \in 1..NRuns |->
+                                            IF q = r THEN [sys.m[q] EXCEPT !.timers = SelectSeq(@, LAMBDA x : x # <<e[2], e[3]>>), !.now = now2]
+                                            ELSE [sys.m[q] EXCEPT !.now = now2]],
+                                 !.tord = SelectSeq(@, LAMBDA x : x # e),
+                                 !.ready = Append(@, <<r, 0 - e[3]>>)]
+           /\ act' = <<"tick", r>>
+    /\ UNCHANGED st
+
 StartRun(r) ==
     /\ r \notin sys.started /\ r - 1 \in sys.started
     /\ G.overlap \/ ~Pending(r - 1)
@@ -59,7 +84,7 @@ StartRun(r) ==
     /\ UNCHANGED st
 
 Next2 == (Running2 /\ Step2) \/ (\E r \in sys.started : Pending(r) /\ \E t \in sys.m[r].gates : Fire2(r, t))
-         \/ (\E r \in 1..NRuns : StartRun(r))
+         \/ (\E r \in 1..NRuns : StartRun(r)) \/ Tick2
 Spec2 == Init2 /\ [][Next2]_vars2
 
 (* C08 / C07 at model level: every run returns what it returns alone (the reference semantics of ITS input and plan),
@@ -70,7 +95,7 @@ SoloOutcome ==
         (IF SemOfRun(r)[1] = "V" THEN sys.m[r].outcome[1] = "value" /\ sys.m[r].outcome[2] # Absent /\ sys.m[r].outcome[2][1] # "err"
          ELSE sys.m[r].outcome[1] = "error")
 CanStart == \E r \in 1..NRuns : r \notin sys.started /\ r - 1 \in sys.started /\ (G.overlap \/ ~Pending(r - 1))
-NoStuck2 == ~(Running2 /\ Len(sys.ready) = 0 /\ ~CanStart /\ \A r \in sys.started : ~Pending(r) \/ sys.m[r].gates = {})
+NoStuck2 == ~(Running2 /\ Len(sys.ready) = 0 /\ ~CanStart /\ Len(sys.tord) = 0 /\ \A r \in sys.started : ~Pending(r) \/ sys.m[r].gates = {})
 CleanStarts2 == \A r \in 1..NRuns : sys.m[r].badstart = {}
 
 View2 == sys
